@@ -354,6 +354,16 @@ theorem accrue_first_liquidate :
     occursBefore liquidate (isAccrue .liabBank) isShareMove = true := by decide
 
 open Mfi.Gen.Skel in
+/-- … and on EVERY path: each accrual sits at conditional depth 0 of its handler (never behind a flag, a kind of bank
+    or an argument) -/
+theorem accrue_unconditional :
+    (∀ h ∈ [(deposit, deposit_cond), (withdraw, withdraw_cond), (borrow, borrow_cond), (repay, repay_cond),
+            (close_balance, close_balance_cond), (handle_bankruptcy, handle_bankruptcy_cond)],
+      unconditionally h.1 h.2 (isAccrue .bank) = true) ∧
+    unconditionally liquidate liquidate_cond (isAccrue .assetBank) = true ∧
+    unconditionally liquidate liquidate_cond (isAccrue .liabBank) = true := by decide
+
+open Mfi.Gen.Skel in
 /-- Known nuance kept visible: in `handle_bankruptcy` the eligibility test (`check_account_bankrupt`)
     runs on stored share values BEFORE the accrual; the debt written off is computed after it. -/
 theorem bankruptcy_eligibility_before_accrual :
